@@ -174,6 +174,8 @@ func checkRoute(t *testing.T, c RouteCase) (v harness.Verdict) {
 			v.Class("route:in-span")
 			host := fmt.Sprintf("shard%d.example", want)
 			switch {
+			case total == 0 && c.Chain.Quirk != 0:
+				v.Failf("route-client-refuses-nonfatal-leaf", "NotAfter %v belongs to shard %d %v and its server admits the leaf (the X.509 parser reports only a NON-fatal error for it), but TemporalLogClient refuses to submit it: %v", s, want, sh[want], err)
 			case total == 0:
 				v.Failf("route-inside-span-not-submitted", "NotAfter %v belongs to shard %d %v, whose server admits it, but the temporal client submitted it nowhere: %v", s, want, sh[want], err)
 			case total != 1 || after[host]-before[host] != 1:
